@@ -213,7 +213,9 @@ pub fn prelude_cases() -> Vec<AuthCase> {
         for create_in_auth in [true, false] {
             for federate in ["absent", "true", "false"] {
                 for same_domain in [true, false] {
-                    for kind in ["message", "join"] {
+                    // the federation rule precedes every type-specific rule, also those that end in an
+                    // early "allow" (aliases before v6) or have their own rule group
+                    for kind in ["message", "join", "aliases", "leave", "topic", "power_levels", "invite"] {
                         let mut s = Sc::bare(v);
                         let mut content = json!({"room_version": v.to_string()});
                         if v <= 10 {
@@ -227,11 +229,37 @@ pub fn prelude_cases() -> Vec<AuthCase> {
                         s.set("m.room.create", "", CREATOR, content);
                         s.join_rule("public");
                         let user = if same_domain { ALICE } else { BOB };
-                        let mut e = if kind == "message" {
-                            s.member(user, "join");
-                            s.event("m.room.message", None, user, json!({"body": "x"}))
-                        } else {
-                            s.event("m.room.member", Some(user), user, json!({"membership": "join"}))
+                        let mut e = match kind {
+                            "message" => {
+                                s.member(user, "join");
+                                s.event("m.room.message", None, user, json!({"body": "x"}))
+                            }
+                            "join" => s.event("m.room.member", Some(user), user, json!({"membership": "join"})),
+                            "aliases" => {
+                                s.member(user, "join");
+                                s.pl(json!({"state_default": 0, "users": {CREATOR: 100}}));
+                                let domain = user.split_once(':').map(|x| x.1).unwrap_or("");
+                                s.event("m.room.aliases", Some(domain), user, json!({"aliases": []}))
+                            }
+                            "leave" => {
+                                s.member(user, "join");
+                                s.event("m.room.member", Some(user), user, json!({"membership": "leave"}))
+                            }
+                            "topic" => {
+                                s.member(user, "join");
+                                s.pl(json!({"state_default": 0, "users": {CREATOR: 100}}));
+                                s.event("m.room.topic", Some(""), user, json!({"topic": "t"}))
+                            }
+                            "power_levels" => {
+                                s.member(user, "join");
+                                s.pl(json!({"users": {CREATOR: 100, user: 100}}));
+                                s.event("m.room.power_levels", Some(""), user, json!({"users": {CREATOR: 100, user: 100}, "ban": 60}))
+                            }
+                            _ => {
+                                s.member(user, "join");
+                                s.pl(json!({"invite": 0, "users": {CREATOR: 100}}));
+                                s.event("m.room.member", Some(CAROL), user, json!({"membership": "invite"}))
+                            }
                         };
                         if !create_in_auth {
                             let cid = s.state[&("m.room.create".to_owned(), String::new())].id.clone();
@@ -768,6 +796,17 @@ pub fn tpi_content_on_other_memberships(base: &[AuthCase]) -> Vec<AuthCase> {
                 n.state.push(t);
             }
             out.push(n);
+        }
+        // `join_authorised_via_users_server` is read only for joins under the restricted rules of
+        // room versions 8+: anywhere else neither its presence nor a malformed value matters
+        if k % 10 == 0 {
+            for (i, val) in [json!(""), json!("bob"), json!(42), json!({}), json!("@carol:hs1")].into_iter().enumerate() {
+                let mut n = c.clone();
+                n.group = format!("{}+join_authorised_content", c.group);
+                n.event.content["join_authorised_via_users_server"] = val;
+                n.event.id = format!("{}j{i}", n.event.id);
+                out.push(n);
+            }
         }
     }
     out
